@@ -246,8 +246,17 @@ Proof.
   - apply negb_true_iff. apply N.eqb_neq. exact B.
 Qed.
 
-Section Hash.
-Variable HS : bytes -> bytes.
+(** what a hash field of a sum line must look like for the line to be read
+    back as written: no line feed, no ':', does not end in '\r', not empty *)
+Definition text_ok (h : bytes) : Prop :=
+  Forall (fun c => c <> NL /\ c <> 58%N) h /\ exists h' c, h = h' ++ [c] /\ c <> CR.
+
+Lemma hash_ok_text h : hash_ok h -> text_ok h.
+Proof.
+  intros H. split; [|apply hash_ok_snoc; exact H].
+  apply hash_ok_forall in H. eapply Forall_impl; [|exact H].
+  intros c Hc. apply b64_cases in Hc. tauto.
+Qed.
 
 Definition line_of (x : entry) : bytes := fst x ++ s_sp_h1 ++ snd x.
 
@@ -266,28 +275,30 @@ Proof.
   rewrite scan_lines_line by exact Hx. rewrite IH. reflexivity.
 Qed.
 
-(** the well-formed entries: name passes [name_ok], hash has the base64 shape *)
-Definition entry_ok (x : entry) : Prop := name_ok (fst x) = true /\ hash_ok (snd x).
+(** the well-formed entries: name passes [name_ok], hash field is [text_ok] *)
+Definition entry_ok (x : entry) : Prop := name_ok (fst x) = true /\ text_ok (snd x).
+
+Lemma text_ok_no_nl h : text_ok h -> no_nl h.
+Proof. intros [F _]. unfold no_nl. eapply Forall_impl; [|exact F]. intros c [A _]; exact A. Qed.
 
 Lemma entry_ok_line x : entry_ok x -> no_nl (line_of x).
 Proof.
   intros [N H]. apply name_ok_spec in N as [_ N]. unfold line_of, no_nl in *.
   apply Forall_app; split; [exact N|]. apply Forall_app; split.
   - repeat constructor; discriminate.
-  - apply hash_ok_no_nl; exact H.
+  - apply text_ok_no_nl; exact H.
 Qed.
 
 Lemma entry_ok_drop_cr x : entry_ok x -> drop_cr (line_of x) = line_of x.
 Proof.
-  intros [_ H]. destruct (hash_ok_snoc _ H) as [h' [c [E Hc]]].
+  intros [_ [_ [h' [c [E Hc]]]]].
   unfold line_of. rewrite E. rewrite !app_assoc. apply drop_cr_snoc; exact Hc.
 Qed.
 
 Lemma entry_ok_split x : entry_ok x -> split_last_h1 (line_of x) = Some (fst x ++ [SP], snd x).
 Proof.
-  intros [_ H]. apply split_last_h1_line.
-  apply hash_ok_forall in H. eapply Forall_impl; [|exact H].
-  intros c Hc. apply b64_cases in Hc. tauto.
+  intros [_ [H _]]. apply split_last_h1_line.
+  eapply Forall_impl; [|exact H]. intros c [_ A]; exact A.
 Qed.
 
 Lemma parse_lines_ok e : Forall entry_ok e -> parse_lines (map drop_cr (map line_of e)) = Some e.
@@ -298,42 +309,60 @@ Proof.
   rewrite (trim_space_snoc_sp _ N). destruct x; reflexivity.
 Qed.
 
-Hypothesis HS_shape : forall x, hash_ok (HS x).
+(** a sum file with header sum [sum] and lines for [e] *)
+Definition sumfile (sum : bytes) (e : list entry) : bytes := s_h1 ++ sum ++ [NL] ++ marshal_lines e.
 
-Lemma header_line e : no_nl (s_h1 ++ hf_sum HS e).
+Lemma header_line sum : text_ok sum -> no_nl (s_h1 ++ sum).
 Proof.
-  unfold no_nl. apply Forall_app; split.
+  intros H. unfold no_nl. apply Forall_app; split.
   - repeat constructor; discriminate.
-  - apply hash_ok_no_nl. apply HS_shape.
+  - apply text_ok_no_nl. exact H.
 Qed.
 
-Lemma header_drop_cr e : drop_cr (s_h1 ++ hf_sum HS e) = s_h1 ++ hf_sum HS e.
+Lemma header_drop_cr sum : text_ok sum -> drop_cr (s_h1 ++ sum) = s_h1 ++ sum.
 Proof.
-  destruct (hash_ok_snoc _ (HS_shape (cat_entries e))) as [h' [c [E Hc]]].
-  unfold hf_sum. rewrite E, app_assoc. apply drop_cr_snoc; exact Hc.
+  intros [_ [h' [c [E Hc]]]]. rewrite E, app_assoc. apply drop_cr_snoc; exact Hc.
 Qed.
 
-(** the lines bufio.Scanner sees in a marshalled hash file *)
-Lemma scan_marshal e :
-  Forall entry_ok e ->
-  map drop_cr (scan_lines (marshal HS e)) = (s_h1 ++ hf_sum HS e) :: map drop_cr (map line_of e).
+(** the lines bufio.Scanner sees *)
+Lemma scan_sumfile sum e :
+  text_ok sum -> Forall entry_ok e ->
+  map drop_cr (scan_lines (sumfile sum e)) = (s_h1 ++ sum) :: map drop_cr (map line_of e).
 Proof.
-  intros He. unfold marshal.
-  replace (s_h1 ++ hf_sum HS e ++ [NL] ++ marshal_lines e)
-    with ((s_h1 ++ hf_sum HS e) ++ NL :: (marshal_lines e ++ []))
+  intros Hs He. unfold sumfile.
+  replace (s_h1 ++ sum ++ [NL] ++ marshal_lines e)
+    with ((s_h1 ++ sum) ++ NL :: (marshal_lines e ++ []))
     by (rewrite app_nil_r, <- app_assoc; reflexivity).
-  rewrite scan_lines_line by apply header_line.
+  rewrite scan_lines_line by (apply header_line; exact Hs).
   rewrite marshal_lines_scan.
   - change (scan_lines []) with (@nil bytes). rewrite app_nil_r. cbn [map].
-    rewrite header_drop_cr. reflexivity.
+    rewrite header_drop_cr by exact Hs. reflexivity.
   - eapply Forall_impl; [|exact He]. apply entry_ok_line.
 Qed.
+
+Section Hash.
+Variable HS : bytes -> bytes.
+
+(** *** UnmarshalText of a well-formed sum file text: its entries, provided
+    the header is their sum *)
+Lemma unmarshal_sumfile sum e :
+  text_ok sum -> Forall entry_ok e ->
+  unmarshal HS (sumfile sum e) = if bytes_eqb sum (hf_sum HS e) then UOk e else UMismatch.
+Proof.
+  intros Hs He. unfold unmarshal. rewrite (scan_sumfile _ _ Hs He). simpl tl.
+  rewrite (parse_lines_ok _ He). rewrite trim_prefix_app. reflexivity.
+Qed.
+
+Lemma marshal_sumfile e : marshal HS e = sumfile (hf_sum HS e) e.
+Proof. reflexivity. Qed.
+
+Hypothesis HS_shape : forall x, hash_ok (HS x).
 
 (** *** UnmarshalText (MarshalText e) = e *)
 Lemma unmarshal_marshal e : Forall entry_ok e -> unmarshal HS (marshal HS e) = UOk e.
 Proof.
-  intros He. unfold unmarshal. rewrite (scan_marshal _ He). simpl tl.
-  rewrite (parse_lines_ok _ He). rewrite trim_prefix_app, bytes_eqb_refl. reflexivity.
+  intros He. rewrite marshal_sumfile, unmarshal_sumfile, bytes_eqb_refl; auto.
+  apply hash_ok_text, HS_shape.
 Qed.
 
 (** ** NewHashFile *)
@@ -353,7 +382,7 @@ Proof.
   split.
   - apply in_map_iff in A as [f [E F]]. unfold names_ok in H. rewrite forallb_forall in H.
     rewrite <- E. apply H; exact F.
-  - rewrite B. apply HS_shape.
+  - rewrite B. apply hash_ok_text, HS_shape.
 Qed.
 
 Lemma validate_hf_refl e : validate_hf HS e e = VOk.
